@@ -12,11 +12,10 @@ var notApplicable = []naEntry{
 	{"C05", "Correctness of Next/Advance is a relation between runtime cursor values (two roaring cursors and two compressed-stream positions) over arbitrary call histories; no structural clause short of symbolic execution decides it, so static analysis gives no verdict (the wire-arity and length-prefix rules of C01/C04 protect the stream format it relies on but are not a verdict on navigation)."},
 	{"C17", "A metamorphic relation between the outputs of different merge trees: purely a value property over runtime data; its structural ingredients are already those checked under C02/C03/C08, and no static rule in reach decides the equality itself."},
 	{"C01", "check under construction"}, {"C02", "check under construction"}, {"C03", "check under construction"},
-	{"C04", "check under construction"}, {"C06", "check under construction"}, {"C07", "check under construction"},
-	{"C08", "check under construction"}, {"C09", "check under construction"}, {"C10", "check under construction"},
+	{"C04", "check under construction"}, {"C07", "check under construction"},
+	{"C09", "check under construction"}, {"C10", "check under construction"},
 	{"C11", "check under construction"}, {"C13", "check under construction"}, {"C14", "check under construction"},
-	{"C15", "check under construction"}, {"C16", "check under construction"}, {"C18", "check under construction"},
-	{"C19", "check under construction"},
+	{"C15", "check under construction"}, {"C16", "check under construction"},
 }
 
 func init() {
@@ -28,5 +27,43 @@ func init() {
 		Explanation: "Static, path-quantified error discipline of the persist path. ERR-FLOW (go/cfg + go/types abstract walk) shows that in every function reachable from Segment.WriteTo, Merger.WriteTo and the builder's section writers every error-returning call is accounted for on every control-flow path, so a non-nil error from a write at ANY byte offset propagates to the WriteTo result; FLUSH-CHECKED (SSA dominance) shows every possibly-successful return of the two WriteTo methods is dominated by a checked bufio Flush; CLOSED-RETURNS-ERR shows every isClosed poll returns a non-nil error on its true edge; WRITE-CHANNEL enumerates the write sites. Decides clause 1 for every failure offset under the bufio sticky-error assumption; for clause 2 it decides that the only outcomes are ErrClosed or the normal completion path.",
 		NotCovered:  "that a completed file is correct (C02/C04); destination writers that violate io.Writer (short write with nil error)",
 		Uses:        []RuleUse{{"ERR-FLOW", "PERSIST"}, {"FLUSH-CHECKED", ""}, {"CLOSED-RETURNS-ERR", ""}, {"WRITE-CHANNEL", ""}},
+	})
+
+	prop(&Property{
+		ID:          "C19",
+		Title:       "A failed storage read is reported and never wedges the segment",
+		Technique:   "static analysis: SSA lockset dataflow (must-release on every return), dominance of every Data.Read result use by its error test, go/cfg error-flow walk over all read-reachable functions",
+		Level:       "Static rules; the lock clause is decided: on every path of every function that takes the segment mutex the lock is released before return, so no fault sequence can leave it held. Every one of the Data.Read call sites is shown to use its slice only behind err == nil and every read error is shown to propagate or be explicitly tolerated. Not a verdict on promptness in the sense of time.",
+		Explanation: "LOCK-RELEASE (path-set lockset dataflow over SSA blocks, defer-aware) proves every return of every locking function releases the mutex; NO-CALLBACK-UNDER-LOCK proves nothing re-entrant runs while it is held; READ-CHECKED (dominator tree) proves the slice of each segment.Data.Read is used only on the nil edge of its error test; ERR-FLOW over the functions reachable from the read API proves every error-returning call is accounted for on every path (returned, wrapped, sentinel, sticky field) with one listed exemption; STATE-AFTER-FALLIBLE proves a reader's cache key (current chunk) is only advanced after the fallible loads of that chunk succeeded, so a failed load is retried rather than leaving a half-loaded chunk marked current.",
+		NotCovered:  "promptness in the sense of wall-clock time; panics from corrupt (as opposed to unreadable) data; behaviour of dependencies on failing storage",
+		Uses:        []RuleUse{{"LOCK-RELEASE", ""}, {"NO-CALLBACK-UNDER-LOCK", ""}, {"READ-CHECKED", ""}, {"ERR-FLOW", "READ"}, {"STATE-AFTER-FALLIBLE", ""}},
+	})
+
+	prop(&Property{
+		ID:          "C06",
+		Title:       "Stored fields of a document are returned exactly and only for that document",
+		Technique:   "static analysis: SSA pattern/dominance rules (clamped look-ahead slices, numDocs guard, visitor-controlled loop) and folded-constant agreement of the block size between writers and reader",
+		Level:       "Static rules deciding named necessary conditions (no un-clamped look-ahead into the decompressed block, every access behind num < numDocs, the visitor's result alone controls the loop, writers and reader use the same block size). Partial: grouping/order of values and the re-encode arithmetic are value properties and not decided.",
+		Explanation: "LOOKAHEAD-CLAMP enumerates every []byte slice expression whose upper bound is offset+constant and requires the bound to be clamped by a comparison with len/cap of the same buffer (siblings copyStoredDocs and getDocStoredOffsets are both covered); VISIT-GUARD proves by dominance that every read and every visitor call in visitDocument is behind num < footer.numDocs and that the loop variable is defined only by the visitor's result; BLOCK-SELECT folds the constant passed to newChunkedDocumentCoder by both writers and the reader's divisor and requires them equal.",
+		NotCovered:  "grouping and order of delivered values, correctness of the merge re-encode and of the byte-copy path arithmetic",
+		Uses:        []RuleUse{{"LOOKAHEAD-CLAMP", ""}, {"VISIT-GUARD", ""}},
+	})
+	prop(&Property{
+		ID:          "C08",
+		Title:       "Dictionaries enumerate exactly the live terms, in order, with true counts",
+		Technique:   "static analysis: SSA typestate/dominance rules (init-before-read of the scratch postings list, nil-result and nil-field discipline, insert guard, 1-hit awareness)",
+		Level:       "Static rules deciding named necessary conditions of the count/never-panic clauses. Partial: FST range/automaton semantics and term order live in vellum and are not analysed.",
+		Explanation: "INIT-BEFORE-READ proves every PostingsList.read receiver is a freshly re-initialised list (so a count can never inherit the 1-hit flag of the previous term); NIL-RESULT derives the functions that may return (nil,nil) and proves every dereference or escaping interface conversion of such a result crossed a nil test on all paths (unknown field => emptyDictionary, never a nil pointer in an interface); NIL-FIELD proves every method call on Dictionary.fst/fstReader is dominated by a nil test; INSERT-GUARD proves terms are inserted only with postingsOffset>0 and writePostings returns 0 for empty bitmaps; ONEHIT-AWARE proves every content use of PostingsList.postings also dispatches on normBits1Hit.",
+		NotCovered:  "vellum FST range/automaton semantics, term order, numeric correctness of counts under exclusion bitmaps",
+		Uses:        []RuleUse{{"INIT-BEFORE-READ", ""}, {"NIL-RESULT", ""}, {"NIL-FIELD", ""}, {"INSERT-GUARD", ""}, {"ONEHIT-AWARE", ""}},
+	})
+	prop(&Property{
+		ID:          "C18",
+		Title:       "DocsMatchingTerms returns exactly the union of the listed terms' documents",
+		Technique:   "static analysis: SSA dominance rules (nil-result discipline at the dictionary lookup, 1-hit awareness of OrInto, field-cache reload condition)",
+		Level:       "Static rules deciding named necessary conditions (never a nil dereference for unknown fields, both encodings reach the union, the cached dictionary is replaced whenever the field changes). Partial: set equality itself is a value property.",
+		Explanation: "NIL-RESULT covers the (*Segment).dictionary call in DocsMatchingTerms (path-sensitive, phi-aware: the cached dictionary variable is a loop phi); ONEHIT-AWARE covers OrInto; FIELD-CACHE proves the dictionary reload is control-dependent on thisField != lastField and that lastField and the cached dictionary are updated together on that path only.",
+		NotCovered:  "equality of the returned set with the union (value property)",
+		Uses:        []RuleUse{{"NIL-RESULT", ""}, {"ONEHIT-AWARE", ""}},
 	})
 }
